@@ -206,7 +206,7 @@ def main():
     merge_findings(F, F2)
     tot.update(tot2)
     tot["snoopyctl_conf_runs"] = nsample
-    if tot.get("non_default_values", 0) == 0 or tot.get("roundtrips", 0) == 0:
+    if (tot.get("non_default_values", 0) == 0 or tot.get("roundtrips", 0) == 0) and F.n_unlisted() == 0:
         raise Harness("monitor observed too little: %s" % tot)
     rc = F.report()
     write_evidence(PROP, "exploration", tr, dict(
